@@ -80,7 +80,7 @@ func c19Check(cs c19Case) (ok bool, sig, expected, observed string) {
 		start, end int
 	}
 	var toks []tk
-	var fail string
+	var fail, eofAgain string
 	o := guard(func() Outcome {
 		toks = nil
 		fail = ""
@@ -88,6 +88,15 @@ func c19Check(cs c19Case) (ok bool, sig, expected, observed string) {
 		for i := 0; i <= len(src)+2; i++ {
 			t := l.NextToken()
 			toks = append(toks, tk{t: t})
+			if t.Type == token.EOF {
+				// asking again gives the same end-of-input token, at the same place
+				for k := 0; k < 3; k++ {
+					if again := l.NextToken(); again.Type != token.EOF || again.Pos != t.Pos {
+						fail = "eof-token-moves-when-asked-again"
+						eofAgain = fmt.Sprintf("EOF [%d:%d-%d:%d], then %s [%d:%d-%d:%d]", t.Pos.StartLine, t.Pos.StartCol, t.Pos.EndLine, t.Pos.EndCol, token.String(again.Type), again.Pos.StartLine, again.Pos.StartCol, again.Pos.EndLine, again.Pos.EndCol)
+					}
+				}
+			}
 			if t.Type == token.EOF || t.Type == token.ILLEGAL {
 				return Outcome{Kind: KOut}
 			}
@@ -97,6 +106,10 @@ func c19Check(cs c19Case) (ok bool, sig, expected, observed string) {
 	if o.Kind != KOut {
 		return false, o.Kind + "@" + o.Site, expected, o.String()
 	}
+	if fail == "eof-token-moves-when-asked-again" {
+		return false, fail, expected, eofAgain + " in " + strconvQuote(src)
+	}
+	fail = ""
 	describe := func(t token.Token) string {
 		return fmt.Sprintf("%s %q [%d:%d-%d:%d]", token.String(t.Type), t.Literal, t.Pos.StartLine, t.Pos.StartCol, t.Pos.EndLine, t.Pos.EndCol)
 	}
